@@ -11,7 +11,8 @@
 //   TimingAttackProtection of the MaskCard steps on / off (only where a public MaskCard step exists)
 //   opener   : every player o in turn: TMCG_SelfCardSecret for o, and for every other player j the real interactive proof
 //              TMCG_ProveCardSecret (j's secret key) <-> TMCG_VerifyCardSecret (o, j's public key) over an in-memory
-//              duplex stream (two threads, wire::run2), then TMCG_TypeOfCard.
+//              duplex stream (wire::run2; one session of two threads per card: all provers on one side, all openers
+//              on the other, in the same fixed order), then TMCG_TypeOfCard.
 // Oracle: every honest proof verifies and TMCG_TypeOfCard == T.  Independently, the harness decrypts the card with the
 //   secret primes (Legendre symbols) and requires the same T (this also pins down a masking error when the proof path and
 //   the type computation would agree with each other on a wrong type).
@@ -155,51 +156,78 @@ static void run_cell(const KeyPool &pool, size_t first_key, unsigned long keybit
 				size_t ref = G.ref_type(c);
 				if (ref != T)
 					viol("c01/qr/card_encodes_wrong_type", ctx + ": decryption with the secret primes gives type " + str(ref), cid);
-				for (size_t o = 0; o < k; o++)
-				{
-					TMCG_CardSecret csx(k, w);
-					bool all_ok = true;
-					try
+				// One duplex session per card: the "provers" thread plays TMCG_ProveCardSecret of player j for every
+				// (opener o, j != o) in a fixed order, the "openers" thread plays TMCG_SelfCardSecret / TMCG_VerifyCardSecret /
+				// TMCG_TypeOfCard of every opener o in the same order.  Every player keeps its own coin source.
+				std::vector<size_t> got(k, ntypes + 7);
+				std::vector<int> state(k, 0);   // 0 not reached, 1 opened, 2 a share was rejected
+				std::vector<size_t> rejected(k, 0);
+				wire::Outcome out;
+				out.a_threw = out.b_threw = out.timeout = false;
+				auto openers = [&](std::iostream &s) {
+					for (size_t o = 0; o < k; o++)
 					{
+						TMCG_CardSecret csx(k, w);
 						G.as(o);
 						tm[o]->TMCG_SelfCardSecret(c, csx, *G.sec[o], o);
-						mcenv::cur = nullptr;
-						for (size_t j = 0; j < k && all_ok; j++)
+						for (size_t j = 0; j < k; j++)
 						{
 							if (j == o)
 								continue;
-							wire::Duplex d;
-							d.sh.logging = false;
-							wire::Outcome out = wire::run2(d,
-								[&](std::iostream &s) { tm[j]->TMCG_ProveCardSecret(c, *G.sec[j], j, s, s); return true; },
-								[&](std::iostream &s) { return tm[o]->TMCG_VerifyCardSecret(c, csx, *G.pub[j], j, s, s); },
-								seed, &G.coins[j], &G.coins[o]);
-							if (out.a_threw || out.b_threw || out.timeout)
+							if (!tm[o]->TMCG_VerifyCardSecret(c, csx, *G.pub[j], j, s, s))
 							{
-								all_ok = false;
-								viol("c01/qr/exception/proof", ctx + " opener=" + str(o) + " prover=" + str(j) + " prover: " + out.a_what + " verifier: " + out.b_what +
-									(out.timeout ? " (stream timeout)" : ""), cid);
-							}
-							else if (!out.b_ok)
-							{
-								all_ok = false;
-								viol("c01/qr/honest_share_rejected", ctx + " opener=" + str(o) + ": TMCG_VerifyCardSecret rejects the honest proof of player " + str(j), cid);
+								state[o] = 2, rejected[o] = j;
+								return false;   // the stream is out of step now: end the session
 							}
 						}
+						got[o] = tm[o]->TMCG_TypeOfCard(csx);
+						state[o] = 1;
 					}
-					catch (std::exception &e)
-					{
-						mcenv::cur = nullptr;
-						all_ok = false;
-						viol("c01/qr/exception/open", ctx + " opener=" + str(o) + " threw " + e.what(), cid);
-					}
+					return true;
+				};
+				if (k == 1)
+				{
+					std::stringstream unused;
+					try { openers(unused); }
+					catch (std::exception &e) { out.b_threw = true, out.b_what = e.what(); }
+					mcenv::cur = nullptr;
+				}
+				else
+				{
+					wire::Duplex d;
+					d.sh.logging = false;
+					out = wire::run2(d,
+						[&](std::iostream &s) {
+							for (size_t o = 0; o < k; o++)
+								for (size_t j = 0; j < k; j++)
+								{
+									if (j == o)
+										continue;
+									G.as(j);
+									tm[j]->TMCG_ProveCardSecret(c, *G.sec[j], j, s, s);
+								}
+							return true;
+						},
+						openers, seed);
+				}
+				for (size_t o = 0; o < k; o++)
+				{
 					R->ok(masked);
 					openings++;
-					if (!all_ok)
-						continue;
-					size_t got = tm[o]->TMCG_TypeOfCard(csx);
-					if (got != T)
-						viol("c01/qr/full_opening_wrong_type", ctx + " opener=" + str(o) + " TMCG_TypeOfCard=" + str(got) + " (reference decryption " + str(ref) + ")", cid);
+					if (state[o] == 1)
+					{
+						if (got[o] != T)
+							viol("c01/qr/full_opening_wrong_type", ctx + " opener=" + str(o) + " TMCG_TypeOfCard=" + str(got[o]) + " (reference decryption " + str(ref) + ")", cid);
+					}
+					else if (state[o] == 2)
+						viol("c01/qr/honest_share_rejected", ctx + " opener=" + str(o) + ": TMCG_VerifyCardSecret rejects the honest proof of player " + str(rejected[o]), cid);
+					else if (out.a_threw || out.b_threw || out.timeout)
+					{
+						viol("c01/qr/exception/proof", ctx + " opener=" + str(o) + " prover side: " + out.a_what + " opener side: " + out.b_what + (out.timeout ? " (stream timeout)" : ""), cid);
+						break;
+					}
+					else
+						break;   // not reached because an earlier opener of this card failed (already reported)
 				}
 			}
 		}
